@@ -255,3 +255,16 @@ def on_every_normal_path(stmt, fn_node):
         else:
             return False
         n = par
+
+
+def args_in_order(call, fi, drop_self=True):
+    """The arguments of a call in the callee's parameter order, whether given by position or by keyword (None where a
+    parameter is left to its default).  `fi` is the callee."""
+    params = fi.param_names(drop_self=drop_self)
+    out = [None] * len(params)
+    for i, a in enumerate(call.args[:len(params)]):
+        out[i] = a
+    for k in call.keywords:
+        if k.arg in params:
+            out[params.index(k.arg)] = k.value
+    return out
